@@ -128,6 +128,11 @@ func runFault(c *Ctx, caseNo int, in faultInput, srcDir string) ([]vt.Ev, *SyncR
 			conn.R.Faults = []hstream.Fault{{Op: "send", K: in.K, Err: hstream.ErrBroken, Do: brk}}
 		case "R.recv":
 			conn.R.Faults = []hstream.Fault{{Op: "recv", K: in.K, Err: hstream.ErrBroken, Do: brk}}
+		case "S.sendErrOnce":
+			// one SendMsg reports an error, the stream itself stays usable (the failure must still surface)
+			conn.S.Faults = []hstream.Fault{{Op: "send", K: in.K, Err: hstream.ErrBroken}}
+		case "R.sendErrOnce":
+			conn.R.Faults = []hstream.Fault{{Op: "send", K: in.K, Err: hstream.ErrBroken}}
 		case "S.cancel@send":
 			conn.S.Faults = []hstream.Fault{{Op: "send", K: in.K, Do: cancelS}}
 		case "S.cancel@recv":
@@ -323,6 +328,7 @@ func Faults(c *Ctx) error {
 			{"walk", cnt.Walks}, {"open", cnt.Opens}, {"read", cnt.Opens}, {"hasher", cnt.Hasher}, {"notify", cnt.Notify},
 			{"R.cancelCall@readBlocked", cnt.Opens}, {"S.cancelCall@readBlocked", cnt.Opens},
 			{"openFailsWhenPipelineFull", 1},
+			{"S.sendErrOnce", cnt.SSend}, {"R.sendErrOnce", cnt.RSend},
 		}
 		// SIGKILL of the receiving process at the sender's k-th SendMsg
 		if len(sc.OnlyKinds) == 0 && sc.SlowData == 0 {
